@@ -115,13 +115,14 @@ type PkgContracts struct {
 	AtomicCells []*atomicCell
 	Monitors    []*monitorDecl
 	PureFields []string // TYPE.FIELD: calls through this function-valued struct field are pure and deterministic (assumed)
+	SharedBytes string  // import name of a package whose byte-sequence type this package's contracts share (sharedbytes NAME)
 	PureFuncs  []string // TYPE: calls of values of this named function type are pure and deterministic (assumed)
 	Opaque  map[string]bool
 	File    string
 	Raw     string
 }
 
-var kwRe = regexp.MustCompile(`^(import|func|property|requires|names|ensures|modifies|loop|may_panic|trusted|nosafety|timeout|spec|lemma|axiom|panics|table|nooverflow|noaxioms|lean|indexfn|qinst|cas|tallies|counts|stream|dispatch|atomiccell|monitor|closed|purefield|purefunc|hint|uses|reveals)\b`)
+var kwRe = regexp.MustCompile(`^(import|func|property|requires|names|ensures|modifies|loop|may_panic|trusted|nosafety|timeout|spec|lemma|axiom|panics|table|nooverflow|noaxioms|lean|indexfn|qinst|cas|tallies|counts|stream|dispatch|atomiccell|monitor|closed|purefield|purefunc|sharedbytes|hint|uses|reveals)\b`)
 
 func parseContractFile(path string) (*PkgContracts, error) {
 	f, err := os.Open(path)
@@ -247,6 +248,10 @@ func parseContractFile(path string) (*PkgContracts, error) {
 			last = cl
 		case "purefield":
 			pc.PureFields = append(pc.PureFields, rest)
+			cur, curLemma, curTable = nil, nil, nil
+			last = nil
+		case "sharedbytes":
+			pc.SharedBytes = strings.TrimSpace(rest)
 			cur, curLemma, curTable = nil, nil, nil
 			last = nil
 		case "purefunc":
